@@ -30,26 +30,27 @@ type Proc struct {
 }
 
 type PCmd struct {
-	Op         string           `json:"op"`
-	Dir        string           `json:"dir,omitempty"`
-	Opts       *StoreOpts       `json:"opts,omitempty"`
-	Fsync      bool             `json:"fsync,omitempty"`
-	Docs       []model.Doc      `json:"docs,omitempty"`
-	Wait       bool             `json:"wait,omitempty"`
-	Point      string           `json:"point,omitempty"`
-	Arg        string           `json:"arg,omitempty"`
-	N          int              `json:"n,omitempty"`
-	Req        *model.SearchReq `json:"req,omitempty"`
-	Text       string           `json:"text,omitempty"`
-	IDs        []model.ID       `json:"ids,omitempty"`
-	Hints      []string         `json:"hints,omitempty"`
-	Bytes      uint64           `json:"bytes,omitempty"`
-	Aggs       []AggSpec        `json:"aggs,omitempty"`
-	ID         string           `json:"id,omitempty"`
-	Async      bool             `json:"async,omitempty"`
-	Docs2      []model.Doc      `json:"docs2,omitempty"`
-	DelayPoint string           `json:"delay_point,omitempty"`
-	DelayMs    int              `json:"delay_ms,omitempty"`
+	Op            string           `json:"op"`
+	Dir           string           `json:"dir,omitempty"`
+	Opts          *StoreOpts       `json:"opts,omitempty"`
+	Fsync         bool             `json:"fsync,omitempty"`
+	Docs          []model.Doc      `json:"docs,omitempty"`
+	Wait          bool             `json:"wait,omitempty"`
+	Point         string           `json:"point,omitempty"`
+	Arg           string           `json:"arg,omitempty"`
+	N             int              `json:"n,omitempty"`
+	Req           *model.SearchReq `json:"req,omitempty"`
+	Text          string           `json:"text,omitempty"`
+	IDs           []model.ID       `json:"ids,omitempty"`
+	Hints         []string         `json:"hints,omitempty"`
+	Bytes         uint64           `json:"bytes,omitempty"`
+	Aggs          []AggSpec        `json:"aggs,omitempty"`
+	ID            string           `json:"id,omitempty"`
+	Async         bool             `json:"async,omitempty"`
+	Docs2         []model.Doc      `json:"docs2,omitempty"`
+	MappingFields []string         `json:"mapping_fields,omitempty"`
+	DelayPoint    string           `json:"delay_point,omitempty"`
+	DelayMs       int              `json:"delay_ms,omitempty"`
 }
 
 type PFrac struct {
@@ -229,11 +230,17 @@ func OpenProc(dir string, o StoreOpts, fsync bool) (*Proc, error) {
 
 // OpenProcAsync also starts the store's AsyncSearcher (which resumes unfinished searches).
 func OpenProcAsync(dir string, o StoreOpts, fsync, async bool) (*Proc, error) {
+	return OpenProcAsyncMapped(dir, o, fsync, async, nil)
+}
+
+// OpenProcAsyncMapped: the async searcher parses (and re-parses at a resumption) with a mapping
+// that indexes only the given fields; nil = every field.
+func OpenProcAsyncMapped(dir string, o StoreOpts, fsync, async bool, fields []string) (*Proc, error) {
 	p, err := StartProc()
 	if err != nil {
 		return nil, err
 	}
-	r, err := p.Do(PCmd{Op: "open", Dir: dir, Opts: &o, Fsync: fsync, Async: async})
+	r, err := p.Do(PCmd{Op: "open", Dir: dir, Opts: &o, Fsync: fsync, Async: async, MappingFields: fields})
 	if err != nil {
 		return p, fmt.Errorf("store did not come up: exit status %d, stderr: %s", p.Exit, p.StderrTail())
 	}
